@@ -72,7 +72,8 @@ def gen_lines(rng, proj, inf, n):
             else:
                 words = [c04gen.rand_case(rng, t["tname"])] + [c04gen.arg_word(rng, ty, inf, 1.0) for ty in t["args"]] + words
         lines.append({"words": words, "ignore": ignore, "fail": fail, "rebuild": (k < 2 or rng.random() < 0.13) and not ed,
-                      "mode": c04gen.gen_mode(rng), "argv0": c04gen.gen_argv0(rng, inf, proj.get("binname"))})
+                      "mode": c04gen.gen_mode(rng), "argv0": c04gen.gen_argv0(rng, inf, proj.get("binname")),
+                      "streams": c04gen.gen_streams(rng)})
     return lines
 
 
@@ -183,6 +184,131 @@ def run_exe(mage, argv, cwd, env, executable=None, timeout=180):
     return {"rc": rc, "out": out.decode("utf-8", "replace"), "err": err.decode("utf-8", "replace")}
 
 
+PTY_OK = [True]
+
+
+def run_streams(mage, argv, cwd, env, spec, scratch, timeout=30):
+    """run argv with the standard streams the spec asks for:
+       stdin  in data | empty | devnull | closed | pty      (pty: a terminal on which end-of-file is typed)
+       stdout in pipe | file | pty
+       stderr in pipe | file | devnull | pty
+    -> dict(rc, out, err) with err None when stderr went to /dev/null.  A pty that cannot be had becomes a pipe."""
+    import subprocess, select
+    e = mage.env(env)
+    opened, masters = [], {}
+    def pty_pair(name):
+        if PTY_OK[0]:
+            try:
+                m, sl = os.openpty()
+                opened.extend([m, sl])
+                masters[name] = m
+                return sl
+            except OSError:
+                PTY_OK[0] = False
+        return None
+    kw = {}
+    files = {}
+    sin = spec["stdin"]
+    if sin == "closed":
+        argv = ["/bin/sh", "-c", 'exec "$0" "$@" <&-'] + list(argv)
+        kw["stdin"] = subprocess.DEVNULL
+    elif sin == "devnull":
+        kw["stdin"] = subprocess.DEVNULL
+    elif sin == "pty" and pty_pair("stdin") is not None:
+        kw["stdin"] = opened[-1]
+        os.write(masters["stdin"], b"\x04")          # end-of-file typed at the terminal
+    else:
+        kw["stdin"] = subprocess.PIPE
+    for name in ("stdout", "stderr"):
+        how = spec[name]
+        if how == "devnull":
+            kw[name] = subprocess.DEVNULL
+        elif how == "file":
+            files[name] = open(os.path.join(scratch, name), "w+b")
+            kw[name] = files[name]
+        elif how == "pty" and pty_pair(name) is not None:
+            kw[name] = opened[-1]
+        else:
+            kw[name] = subprocess.PIPE
+    got = {"stdout": b"", "stderr": b""}
+    rc = None
+    try:
+        p = subprocess.Popen(argv, cwd=cwd, env=e, **kw)
+        for m_name, m in masters.items():           # the child holds the slave ends now
+            pass
+        for fd in [f for f in opened if f not in masters.values()]:
+            os.close(fd)
+            opened.remove(fd)
+        if kw["stdin"] == subprocess.PIPE:
+            try:
+                if sin == "data":
+                    p.stdin.write(b"yes\nanswer two\n42\ntrue\n1s\n")
+                p.stdin.close()
+            except OSError:
+                pass
+        readers = {}
+        for name in ("stdout", "stderr"):
+            if kw[name] == subprocess.PIPE:
+                readers[getattr(p, name).fileno()] = name
+            elif name in masters:
+                readers[masters[name]] = name
+        deadline = time.time() + timeout
+        while readers:
+            left = deadline - time.time()
+            if left <= 0:
+                p.kill()
+                rc = 124
+                break
+            r, _, _ = select.select(list(readers), [], [], min(left, 1.0))
+            for fd in r:
+                try:
+                    chunk = os.read(fd, 65536)
+                except OSError:                      # EIO: the terminal's other end is gone
+                    chunk = b""
+                if chunk:
+                    got[readers[fd]] += chunk
+                else:
+                    del readers[fd]
+            if not r and p.poll() is not None:
+                # the child is gone; a pty master does not signal end-of-file by itself: drain and stop
+                for fd in list(readers):
+                    if fd in masters.values():
+                        while True:
+                            rr, _, _ = select.select([fd], [], [], 0.05)
+                            if not rr:
+                                break
+                            try:
+                                chunk = os.read(fd, 65536)
+                            except OSError:
+                                chunk = b""
+                            if not chunk:
+                                break
+                            got[readers[fd]] += chunk
+                        del readers[fd]
+        try:
+            prc = p.wait(timeout=max(1, deadline - time.time()))
+        except subprocess.TimeoutExpired:
+            p.kill()
+            prc = 124
+        rc = prc if rc is None else rc
+        for name in ("stdout", "stderr"):
+            pipe = getattr(p, name)
+            if pipe is not None:
+                pipe.close()
+    finally:
+        for fd in opened:
+            try:
+                os.close(fd)
+            except OSError:
+                pass
+    for name, f in files.items():
+        f.seek(0)
+        got[name] = f.read()
+        f.close()
+    dec = lambda b: b.decode("utf-8", "replace").replace("\r\n", "\n")
+    return {"rc": rc, "out": dec(got["stdout"]), "err": None if spec["stderr"] == "devnull" else dec(got["stderr"])}
+
+
 def start_compiled(bindir, k, neutral, named, a, d):
     """-> (argv0, executable or None, cwd, extra env) for the compiled binary started as the line's "argv0" says"""
     if a is None:
@@ -265,7 +391,20 @@ def run_project(mage, ctx, proj, lines):
         r3 = run_exe(mage, [argv0] + bfl + ln["words"], cwd, dict(env, **benv, **penv), executable=executable)
         t3 = time.time()
         TIMES[0] += t1 - t0; TIMES[1] += t2 - t1; TIMES[2] += t3 - t2
-        res.append([observe(r2), observe(r1) if r1 else None, observe(r3), (r2["err"] + r2["out"])[-300:]])
+        # the same line with other standard streams: dispatch must not depend on what stdin/stdout/stderr are
+        variants = []
+        for si, spec in enumerate(ln.get("streams") or []):
+            scratch = os.path.join(bindir, "io%d_%d" % (k, si))
+            os.makedirs(scratch, exist_ok=True)
+            if spec.get("via") == "mage":
+                rv = run_streams(mage, [mage.bin] + ffl + ln["words"], d, dict(env, MAGEFILE_HASHFAST="1", **fenv), spec, scratch)
+            else:
+                rv = run_streams(mage, [neutral] + bfl + ln["words"], d, dict(env, **benv), spec, scratch)
+            ov = observe(dict(rv, err=rv["err"] or ""))
+            if rv["err"] is None:
+                ov["stderr"] = ov["bad"] = None       # not observed
+            variants.append(ov)
+        res.append([observe(r2), observe(r1) if r1 else None, observe(r3), (r2["err"] + r2["out"])[-300:], variants])
     return {"runs": res}
 
 
@@ -414,7 +553,7 @@ def run(ctx):
     nviol = 0
     dist = {"ends": {}, "words_per_line": {}, "name_kinds": {"plain": 0, "ns": 0, "import": 0, "import-ns": 0, "alias": 0},
             "param_types": {}, "arity": {}, "modes": {}, "binary_started_as": {}, "fail_lines": 0, "no_words": 0, "projects_with_imports": 0, "projects_with_aliases": 0,
-            "projects_with_default": 0, "projects_with_several_magefiles": 0, "history_edits": {}, "oracle_only_non_ascii": 0, "projects_non_ascii_names": 0}
+            "projects_with_default": 0, "projects_with_several_magefiles": 0, "history_edits": {}, "streams": {}, "oracle_only_non_ascii": 0, "projects_non_ascii_names": 0}
     for pi, ((proj, lines), inf, res) in enumerate(zip(work, infos, results)):
         if "build_error" in res:
             # the generator only emits packages in the documented form: mage must build them
@@ -438,7 +577,7 @@ def run(ctx):
         modelled = all(golower(n) == ascii_lower(n) for n in allnames)
         dist["projects_non_ascii_names"] += not modelled
         lowered = sorted(golower(t["tname"]) for t in c04gen.all_targets(inf))
-        for ln, (o1, o2, o3, tail) in zip(lines, res["runs"]):
+        for ln, (o1, o2, o3, tail, variants) in zip(lines, res["runs"]):
             case = {"proj": proj, "line": ln}
             want_calls, want_end = oracle(proj, ln, conv, golower)
             got_calls = [(int(c[0][1:]), [tuple(a) for a in c[1]]) for c in o1["calls"]]
@@ -448,6 +587,10 @@ def run(ctx):
                 clause = "cached binary / mage (rebuilding) / compiled binary behave differently: %s | %s | %s" % (json.dumps(o1)[:300], json.dumps(o2)[:300], json.dumps(o3)[:300])
             elif got_calls != want_calls:
                 clause = "bodies run %s, the property sentence says %s" % (got_calls, want_calls)
+            elif [1 for ov in variants if any(ov[f] != o1[f] for f in ("rc", "calls", "listed") + (("stderr", "bad") if ov["stderr"] is not None else ()))]:
+                spec, ov = [(sp, ov) for sp, ov in zip(ln["streams"], variants)
+                            if any(ov[f] != o1[f] for f in ("rc", "calls", "listed") + (("stderr", "bad") if ov["stderr"] is not None else ()))][0]
+                clause = "dispatch depends on the standard streams: with %s the run gave %s, with pipes %s" % (json.dumps(spec), json.dumps(ov)[:300], json.dumps(o1)[:300])
             elif got_end != want_end:
                 clause = "run ended %s (rc=%d, stderr class %s), the property sentence says %s" % (got_end, o1["rc"], o1["stderr"], want_end)
             elif want_end == "listed" and sorted(c04gen.go_lower(x) for x in o1["listed"]) != lowered:
@@ -462,6 +605,9 @@ def run(ctx):
             nw = min(len(ln["words"]), 12)
             dist["words_per_line"][nw] = dist["words_per_line"].get(nw, 0) + 1
             dist["fail_lines"] += bool(ln["fail"])
+            for sp in ln.get("streams") or []:
+                key = "%s/%s/%s%s" % (sp["stdin"], sp["stdout"], sp["stderr"], "/mage" if sp.get("via") == "mage" else "")
+                dist["streams"][key] = dist["streams"].get(key, 0) + 1
             md, a0 = ln.get("mode") or NOMODE, ln.get("argv0")
             for key, on in (("verbose-" + str(md["verbose"]), md["verbose"]), ("debug", md["debug"]), ("timeout", md["timeout"])):
                 if on:
@@ -526,7 +672,7 @@ def run(ctx):
                    "each run three ways; distinct by hash of (template data, line); non-trivial = at least two bodies run, or an argument converted, "
                    "or the run stops after at least one body ran")
     cov["projects"] = len(work)
-    cov["runs"] = sum(2 + (r[1] is not None) for res in results if "runs" in res for r in res["runs"])
+    cov["runs"] = sum(2 + (r[1] is not None) + len(r[4]) for res in results if "runs" in res for r in res["runs"])
     cov["distribution"] = dist
     cov["model_mismatches"] = len(mism)
     cov["oracle_failures"] = nviol
